@@ -125,6 +125,9 @@ def to_spec(it):
 
 
 def evaluate(item):
+    if isinstance(item, dict) and item.get("kind") == "wide":
+        from mc.props import wide
+        return wide.eval_c05(item)
     spec = to_spec(item)
     obs = common.run_spec(spec)
     if obs.get("error"):
@@ -236,6 +239,8 @@ def run(ctx):
     na = st.evaluations
     explore(ctx, b_configs(ctx.tier), "mc.props.c05:evaluate_b", st, payload=lambda it, c, d: {"item": it, "detail": d, "mode": "B"},
             sample_of=lambda it: {"mode B config": it, "distinguished slots": b_slots(it)}, timeout=600)
+    from mc.props import wide
+    wide.sweep(ctx, st, "C05")
     common.vacuity_guard(ctx, st)
     cov = st.coverage(
         "product universe: 6 horizons (fits, overruns the declared end, 14 months, year ends 2024/2026/2020) x 12 limit values x 12 placements "
@@ -244,7 +249,7 @@ def run(ctx):
         "object every history (depth <= 3, thorough 4) of booking attempts at the distinguished slots (first/last slot of a day, an ISO week, "
         "the year, the declared interval, and slots beyond it) - ok() must never allow a booking in a period that already holds the cap",
         mode_a_projects=na, mode_b_configs=st.evaluations - na)
-    return ctx.finish(cov, ASSUME)
+    return ctx.finish(cov, ASSUME + [wide.NOTE])
 
 
 def replay(path):
